@@ -2,6 +2,6 @@
 # usage: tools/seedbatch.sh C03 C12 ...  -- runs seedtest for patch1/patch2 of each id, 4 at a time
 cd /verif
 for id in "$@"; do for p in patch1 patch2; do
-  f=/tmp/seed-$id-out/$p.diff; [ -f "$f" ] || continue
-  echo "tools/seedtest.sh $id $f > /tmp/st-$id-$p.log 2>&1"
+  f=/tmp/${SEEDPFX:-seed}-$id-out/$p.diff; [ -f "$f" ] || continue
+  echo "tools/seedtest.sh $id $f > /tmp/st${SEEDTAG:-}-$id-$p.log 2>&1"
 done; done | xargs -P 4 -I{} bash -c "{}"
